@@ -292,6 +292,9 @@ func Eq(a, b *Term) *Term {
 		}
 		return BoolC(a.Val == b.Val)
 	}
+	if r := remZeroRewrite(a, b); r != nil {
+		return r
+	}
 	if a.Sort.K == SBool {
 		if a.IsConst() {
 			if a.Val == 1 {
@@ -307,6 +310,55 @@ func Eq(a, b *Term) *Term {
 		}
 	}
 	return newTerm(OEq, BoolSort, a, b)
+}
+
+// remZeroRewrite: (c rem x) == 0 with a small constant dividend c is a
+// disjunction over the divisors of c; this avoids bit-blasting a 64-bit divider.
+// SMT-LIB semantics for x == 0 (result = dividend) are preserved: for c != 0 the
+// result is non-zero, matching "no divisor equals 0".
+func remZeroRewrite(a, b *Term) *Term {
+	var rem, z *Term
+	if a.IsConst() {
+		z, rem = a, b
+	} else if b.IsConst() {
+		z, rem = b, a
+	} else {
+		return nil
+	}
+	if z.Val != 0 || (rem.Op != OBvSRem && rem.Op != OBvURem) || !rem.Args[0].IsConst() {
+		return nil
+	}
+	w := rem.Sort.W
+	x := rem.Args[1]
+	var c int64
+	if rem.Op == OBvSRem {
+		c = rem.Args[0].SVal()
+	} else {
+		if rem.Args[0].Val > 4096 {
+			return nil
+		}
+		c = int64(rem.Args[0].Val)
+	}
+	if c == 0 {
+		return TrueT
+	}
+	if c < 0 {
+		c = -c
+	}
+	if c > 4096 || c < 0 {
+		return nil
+	}
+	res := FalseT
+	for d := int64(1); d <= c; d++ {
+		if c%d != 0 {
+			continue
+		}
+		res = Or(res, Eq(x, BVC(w, uint64(d))))
+		if rem.Op == OBvSRem {
+			res = Or(res, Eq(x, BVC(w, uint64(-d))))
+		}
+	}
+	return res
 }
 
 func Ite(c, a, b *Term) *Term {
